@@ -261,7 +261,9 @@ def check(ck):
                 t = prov.origin(gl, n, c.func)
                 bad, n_main, n_imp = [], [], []
                 for a in prov.value_alts(t):
-                    table = a[0] == "item" and a[1] == ("param", "classes")
+                    table = a[0] == "item" and (a[1] == ("param", "classes") or
+                                                (a[1][0] == "or" and a[1][1] and a[1][1][0] == ("param", "classes") and
+                                                 all(x_[0] == "other" and x_[1] in ("{}", "dict()") or x_ == ("tuple", ()) for x_ in a[1][1][1:])))
                     # getattr(<module>, <name>) where the module can only be what __import__ / importlib returned in this call (the
                     # import machinery waits for a first import that another thread is still running; a module picked out of
                     # sys.modules can be half initialised and lack the class)
@@ -318,6 +320,16 @@ def check(ck):
                            "constructor arguments %s (neither list nor dictionary) give %s with %d constructor call(s) instead of a "
                            "rejection" % (label, [o[:2] for (_d, o) in res], len(calls)), q.loc(fl, fl.node))
             else:
+                # (further outcomes of undecided tests - "the attribute found is not a class" - may reject, without any constructor call)
+                rets_ = [r_ for r_ in res if r_[1][0] == "return"]
+                if len(rets_) == 1 and all(r_[1][0] in ("return", "raise") for r_ in res):
+                    cpr_ = getattr(ev, "calls_per_result", None)
+                    if cpr_ is not None and len(cpr_) == len(res):
+                        # (the calls of the returning run; the rejecting runs must not have instantiated anything)
+                        i_ = [k_ for k_, r_ in enumerate(res) if r_[1][0] == "return"][0]
+                        others_ = [c for k_, cl_ in enumerate(cpr_) if k_ != i_ for c in cl_ if c[1] == "__call__"]
+                        calls = [c for c in cpr_[i_] if c[1] == "__call__"] + others_
+                    res = rets_
                 okk = len(res) == 1 and res[0][1][0] == "return" and len(calls) == 1 and calls[0][2] == want[0] and calls[0][3] == want[1]
                 if okk:
                     # which object is instantiated: the entry of the class table for a bare name found there, the attribute of the
